@@ -179,10 +179,11 @@ fn gen(src: &mut Src) -> Prog {
     }
     let main = if args.is_empty() { "f".to_string() } else { format!("f({})", args.join("; ")) };
     let (text, expect, consumer): (String, String, &'static str) = if path_mode {
+        // (no consumer that collects: with a comma that emits on the way there is one path per iteration)
         match g.src.below(3) {
             0 => (format!("{def} 0 | last(path({main}))"), "[]".into(), "last(path(..))"),
             1 => (format!("{def} 0 | path(last({main}))"), "[]".into(), "path(last(..))"),
-            _ => (format!("{def} 0 | [path({main})] | last"), "[]".into(), "collected paths"),
+            _ => (format!("{def} 0 | first(path({main}) | select($n < 0)), \"none\""), "\"none\"".into(), "first(path(..) | select(false))"),
         }
     } else {
         // the last output is N; with commas that emit on the way, earlier outputs are smaller
